@@ -103,7 +103,14 @@ func TestMutexLostUpdate(t *testing.T) {
 		return func() ([]func(), func() string) {
 			mu := mk()
 			x := 0
-			inc := func() { mu.Lock(); v := x; mu.Unlock(); mu.Lock(); x = v + 1; mu.Unlock() }
+			inc := func() {
+				mu.Lock()
+				v := x
+				mu.Unlock()
+				mu.Lock()
+				x = v + 1
+				mu.Unlock()
+			}
 			return []func(){inc, inc}, func() string { return fmt.Sprint(x) }
 		}
 	}
@@ -132,9 +139,23 @@ func TestRWMutexReadersShareWritersExclude(t *testing.T) {
 			var lm sync.Mutex
 			add := func(s string) { lm.Lock(); log = append(log, s); lm.Unlock() }
 			r := func(n string) func() {
-				return func() { mu.RLock(); add(n + "+"); vsched.Yield(1); runtime.Gosched(); add(n + "-"); mu.RUnlock() }
+				return func() {
+					mu.RLock()
+					add(n + "+")
+					vsched.Yield(1)
+					runtime.Gosched()
+					add(n + "-")
+					mu.RUnlock()
+				}
 			}
-			w := func() { mu.Lock(); add("W+"); vsched.Yield(1); runtime.Gosched(); add("W-"); mu.Unlock() }
+			w := func() {
+				mu.Lock()
+				add("W+")
+				vsched.Yield(1)
+				runtime.Gosched()
+				add("W-")
+				mu.Unlock()
+			}
 			return []func(){r("a"), r("b"), w}, func() string {
 				// property of interest: the writer section is never interleaved
 				s := strings.Join(log, "")
